@@ -50,6 +50,16 @@ func isAddressable(node Node) bool {
 	return true
 }
 
+// CanTakeAddress reports whether the address of the value the node denotes can be taken:
+// a variable or a field of a struct that has an address or is reached through a pointer.
+// Neither the result of a method call nor a field of such a result has one.
+func CanTakeAddress(node Node) bool {
+	if _, ok := node.(StructMethodNode); ok {
+		return false
+	}
+	return node.Parent() == nil || isAddressable(node.Parent())
+}
+
 // IsRecursive checks if the given type is the same as any of the ancestor nodes in the
 // tree rooted at the given node.
 // If true, it means there is a recursive reference in the tree.
